@@ -128,8 +128,15 @@ func (e *Engine) callStatic(st *State, fr *Frame, res ssa.Value, callee *ssa.Fun
 		}
 	} else {
 		eff := e.P.effectOf(callee)
+		if eff.full() && callee.Pkg != nil && e.fn.Pkg != nil && callee.Pkg != e.fn.Pkg && !e.noVisibilityFrame() {
+			// Go visibility: code of another package (which cannot import this one) cannot name this
+			// package's struct fields; callbacks into this package during the call are assumed away
+			pfx := "F:" + strings.TrimPrefix(e.fn.Pkg.Pkg.Path(), falcoMod+"/") + "."
+			eff = &Effect{All: true, Except: pfx, Keys: map[string]bool{}}
+			e.visibilityFrames[shortFn(callee)] = true
+		}
 		e.havocCalls[shortFn(callee)+" ("+eff.String()+")"]++
-		if !eff.All {
+		if !eff.full() {
 			for _, a := range args {
 				e.escape(st, a)
 			}
@@ -198,6 +205,11 @@ func (e *Engine) canInline(callee *ssa.Function, st *State) bool {
 	}
 	if callee.Parent() != nil { // closures are always inlined
 		return n < 1500
+	}
+	samePkg := callee.Pkg != nil && e.fn.Pkg != nil && callee.Pkg == e.fn.Pkg
+	if !samePkg {
+		// other packages: only tiny helpers (getters, predicates); anything bigger needs a contract
+		return n <= 40 && len(e.P.loopsOf(callee)) == 0
 	}
 	if len(e.P.loopsOf(callee)) > 0 {
 		return n < 120
@@ -403,7 +415,7 @@ func (e *Engine) doReturn(st *State, rs []Val) []*State {
 	st.frames = st.frames[:len(st.frames)-1]
 	if len(st.frames) == 0 {
 		st.results = rs
-		e.finish(st, rs)
+		e.finish(st, rs, fr)
 		return []*State{st}
 	}
 	if fr.call != nil {
@@ -848,6 +860,7 @@ func (e *Engine) appendOp(st *State, s, extra Val, rt types.Type) Val {
 // ---- contracts at call sites ------------------------------------------------------------------
 
 type SpecEnv struct {
+	localsOnlyDollar bool
 	vars map[string]Val
 	pkg  *types.Package
 	fn   *ssa.Function
@@ -943,7 +956,7 @@ func (e *Engine) applyContract(st *State, fr *Frame, res ssa.Value, callee *ssa.
 		st.assume(fmt.Sprintf("(>= %s %s)", na, st.A.term()))
 		st.A = allocCtr{na, 0}
 	default:
-		e.havocHeap(st, "contract without frame: "+shortFn(callee))
+		e.foreignOrFullHavoc(st, callee, "contract without frame: "+shortFn(callee))
 	}
 	// results
 	sig := callee.Signature
@@ -953,6 +966,9 @@ func (e *Engine) applyContract(st *State, fr *Frame, res ssa.Value, callee *ssa.
 	}
 	e.bindResults(env, sig, rs)
 	for _, c := range con.get("ensures") {
+		if strings.Contains(c.Text, "$") {
+			continue // mentions locals of the callee: a proof obligation there, not visible to callers
+		}
 		st.assume(e.evalSpecBool(st, pre, c.Expr, env))
 	}
 	for _, c := range con.get("assume-ensures") {
@@ -1018,10 +1034,22 @@ func (e *Engine) havocLoc(st, pre *State, loc SExpr, env *SpecEnv) {
 	switch x := loc.(type) {
 	case SIdent:
 		if x.Name == "heap" || x.Name == "everything" {
-			e.havocHeap(st, "assigns heap")
+			e.foreignOrFullHavoc(st, env.fn, "assigns heap")
 			return
 		}
 		if x.Name == "fresh" || x.Name == "nothing" {
+			return
+		}
+		if x.Name == "external" {
+			e.havocEffect(st, &Effect{Ext: true, Keys: map[string]bool{}}, "assigns external")
+			return
+		}
+		if x.Name == "foreign" {
+			pfx := "F:?"
+			if env.pkg != nil {
+				pfx = "F:" + strings.TrimPrefix(env.pkg.Path(), falcoMod+"/") + "."
+			}
+			e.havocEffect(st, &Effect{All: true, Except: pfx, Keys: map[string]bool{}}, "assigns foreign")
 			return
 		}
 	case SSel:
@@ -1335,4 +1363,22 @@ func sexpParts(s string) []string {
 		out = append(out, s[start:])
 	}
 	return out
+}
+
+
+func (e *Engine) noVisibilityFrame() bool {
+	return e.con != nil && e.con.has("no-visibility-frame")
+}
+
+
+// foreignOrFullHavoc: the callee may write anything it can reach. A callee of another package
+// cannot name the struct fields of the verified function's package (visibility frame).
+func (e *Engine) foreignOrFullHavoc(st *State, callee *ssa.Function, why string) {
+	if callee != nil && callee.Pkg != nil && e.fn.Pkg != nil && callee.Pkg != e.fn.Pkg && inFalco(callee) && !e.noVisibilityFrame() {
+		pfx := "F:" + strings.TrimPrefix(e.fn.Pkg.Pkg.Path(), falcoMod+"/") + "."
+		e.visibilityFrames[shortFn(callee)] = true
+		e.havocEffect(st, &Effect{All: true, Except: pfx, Keys: map[string]bool{}}, why)
+		return
+	}
+	e.havocHeap(st, why)
 }
